@@ -305,6 +305,10 @@ def finish(prop, tier, verif_seed, results, extra, det, known, pools, t0, shrink
         print(f"HARNESS-ERROR: {extra['harness_errors']} cases of the enumeration / fidelity phases could not be executed or disagreed")
         if rc == 0:
             rc = 2
+    if getattr(pools, "broken", 0):
+        print(f"HARNESS-ERROR: {pools.broken} worker pool(s) died during the run (stall watchdog or crash)")
+        if rc == 0:
+            rc = 2
     if harness or det["diverged"]:
         for r in harness[:5]:
             print(f"HARNESS-ERROR seed={r.get('seed')} {str(r.get('error'))[:1500]}")
